@@ -38,6 +38,12 @@ def gen_case(rng, i):
             ind["dynamics"] = [{"expression": "x'' = -x - 2*x' + 1", "initial_values": {"x": "0", "x'": "0"}}]
         else:
             d["expression"] = d["expression"] + " = 0"
+    if kind == "ok" and rng.random() < 0.35:
+        # values given with their natural JSON types (numbers, not quoted strings) wherever the API accepts them: the file must reach
+        # analysis() as the same dictionary json.load gives
+        ind["options"] = dict(ind.get("options", {}), **rng.choice([{"expression_simplification_threshold": rng.choice([10, 500, 2000])},
+                                                                    {"sim_time": 0.05, "max_step_size": 0.01}, {"integration_accuracy_abs": 1e-8},
+                                                                    {"expression_simplification_threshold": 1000, "sim_time": 0.1}]))
     names = [d["expression"].split("=")[0].strip() for d in ind.get("dynamics", [])]
     first = [n[:-1] for n in names if n.count("'") == 1]
     argv = ["--disable-stiffness-check"]           # PyGSL is absent: without it every run fails the same way in API and CLI (also exercised below)
